@@ -19,6 +19,7 @@ import Pamiq.Model.QueueDriver
 import Pamiq.Model.TorchSyncDriver
 import Pamiq.Model.PersistDriver
 import Pamiq.Model.SysDataDriver
+import Pamiq.Model.TorchTrainerDriver
 open Pamiq
 
 structure DState where
@@ -49,6 +50,8 @@ structure DState where
   persist : Persist.DSt := {}
   -- C04 data layer (SysData)
   sysdata : SysData.DSt := {}
+  -- C05 PyTorch trainer part
+  ttrainer : TorchTrainer.DSt := {}
 
 def handle (st : DState) (line : String) : DState × String :=
   match (line.trimAscii.toString.splitOn " ").filter (· ≠ "") with
@@ -112,6 +115,9 @@ def handle (st : DState) (line : String) : DState × String :=
   | "sysdata" :: rest =>
     let (p, out) := SysData.drive st.sysdata rest
     ({ st with sysdata := p }, out)
+  | "ttrainer" :: rest =>
+    let (p, out) := TorchTrainer.drive st.ttrainer rest
+    ({ st with ttrainer := p }, out)
   | _ => (st, "bad-op")
 
 partial def loop (h : IO.FS.Stream) (out : IO.FS.Stream) (st : DState) : IO Unit := do
